@@ -20,6 +20,14 @@ TRUSTED = ["AtomicU64::compare_exchange is atomic (std)"]
 M = R.METRIC
 
 
+def _walk_expr(e, depth=0):
+    if not isinstance(e, tuple) or depth > 12: return
+    yield e
+    for x in e:
+        if isinstance(x, tuple):
+            yield from _walk_expr(x, depth + 1)
+
+
 def check(ctx):
     fx = ctx.fx
     # ------------------------------------------------------------------ R19.1 who modifies the word, and how
@@ -30,6 +38,12 @@ def check(ctx):
         if has:
             for (b, c) in body.calls:
                 at = R.atomic_target(body, c)
+                if not at and (c.get("f") or "").startswith(R.ATOMIC) and c["args"]:
+                    # the word reached through an accessor of the metric type (`self._atomic().fetch_add(..)`): still the joined word
+                    dgx = D.Dag(body)
+                    e_ = dgx.expr(c["args"][0])
+                    if any(isinstance(x, tuple) and x[:1] == ("call",) and x[1].startswith(M + "::") for x in _walk_expr(e_)):
+                        at = (M, "joined", (c.get("f") or "")[len(R.ATOMIC):])
                 if not at or at[0] != M: continue
                 n_touch += 1
                 meth = at[2]
@@ -221,6 +235,22 @@ def check(ctx):
     for kx, a in split_readers.items():
         ctx.ob("R19.3", f"{kx}|reads-split-view", kx in allowed, a["site"], "non-atomic read of the split view; allowed only in the (uncalled) lightweight accessors")
     ctx.ob("R19.3", f"{M}|positive-control", (M + "::lightweight_probe") in split_readers, "", "the split-view reader detector sees lightweight_probe itself (zero-match rule stays honest)", nontrivial=False)
+    # one reading per report: a function that reads the same metric more than once on one path (count from one probe, average from another -- e.g. through
+    # single-value accessors `counter()` / `average()`, which the rules inline) presents a pair that never existed.  Loops that poll are not readings of a pair.
+    for f in fx.fns:
+        if f["key"] in (kp, M + "::lightweight_probe"): continue
+        rd = [i for i, blk in enumerate(f["blocks"]) if blk["term"][0] == "Call" and ((blk["term"][1].get("resolved") or blk["term"][1].get("f") or "") in (kp, M + "::lightweight_probe"))]
+        if len(rd) < 2: continue
+        body = Body(f); dg = D.Dag(body)
+        by_recv = {}
+        for b in rd:
+            if b not in body.reachable: continue
+            by_recv.setdefault(show(dg.expr(body.term(b)[1]["args"][0])), set()).add(b)
+        for recv, blocks in by_recv.items():
+            if len(blocks) < 2: continue
+            lo, hi, inloop = util.count_on_paths(body, lambda b: b in blocks)
+            ctx.ob("R19.3", f"{f['key']}|one-reading-per-report|{recv}", hi <= 1 or inloop, body.loc(sorted(blocks)[1]),
+                   f"`{recv}` is read up to {hi} times on one path of this function: a count and an average taken from two different readings can belong to two different updates")
     # ------------------------------------------------------------------ R19.4 pack / unpack inverse (symbolic bits)
     kj, ks = M + "::join_split", M + "::split_joined"
     bj, bs = Body(fx.fn(kj)), Body(fx.fn(ks))
